@@ -359,6 +359,17 @@ for _op in ("any", "all", "none", "count", "mask"):
     row(_op, "M", "S", prop="C03")(_maskred(_op))
 
 
+@row("from_mask", ("MS", "S"), "M", prop="C03")
+def _from_mask(ctx):
+    """inverse of mask(): lane i is true iff bit i of the argument is set, for every mask value of the batch's width"""
+    R = ctx.ret = bind_ret(ctx, "M")
+    m = [a for a in ctx.args if a.kind == "S"][0]
+    if ctx.n < 64:
+        ctx.requires.append("(u64)%s < ((u64)1 << %d)" % (m.scalar, ctx.n))     # the kernels assert an in-bound mask
+    ctx.ensures += conj([R.is_true_iff(i, "(((u64)%s >> %d) & 1)" % (m.scalar, i)) for i in range(ctx.n)])
+    ctx.ensures += conj(R.wf())
+
+
 # ---- C04: loads and stores move exactly one register ---------------------------------------------------------------------------
 def _mem_arg(ctx):
     m = [a for a in ctx.args if a.kind == "P"]
